@@ -74,11 +74,38 @@ def run(ctx):
         npairs = 20000 if ctx.quick() else 190000
         # every zone at least once on each side
         sides = [(z, pytz.timezone(z)) for z in zones]
+        # name collisions: a library abbreviation that some IANA zone ALSO uses as its tzname, possibly for a different
+        # offset (Asia/Shanghai and Havana say "CST", Kolkata and Dublin say "IST").  Every such (zone, abbreviation, date
+        # at which the zone carries that name) pair is run in both directions.
+        abbr_off = dict(lib_abbr)
+        forced = []
+        for z in zones:
+            tz = pytz.timezone(z)
+            seen_names = set()
+            for y in range(1951, 2037, 5):
+                for mth in (1, 7):
+                    w0 = datetime.datetime(y, mth, 15, 12, 0, 0)
+                    try:
+                        nm = tz.localize(w0, is_dst=None).tzname()
+                    except (pytz.AmbiguousTimeError, pytz.NonExistentTimeError):
+                        continue
+                    if nm in abbr_off and abbr_off[nm] % 60 == 0 and (nm, y >= 2002) not in seen_names:
+                        seen_names.add((nm, y >= 2002))
+                        B_ = (nm, pytz.FixedOffset(abbr_off[nm] // 60))
+                        forced.append(((z, tz), B_, w0))
+                        forced.append((B_, (z, tz), w0))
+        if ctx.quick():
+            rng.shuffle(forced)
+            forced = forced[:1500]
         k = 0
         while len(cases) < npairs and k < npairs * 3:
             k += 1
-            A = sides[k % len(sides)] if k <= len(sides) else pick_zone()
-            B = sides[(k * 7) % len(sides)] if len(sides) < k <= 2 * len(sides) else pick_zone()
+            forced_w = None
+            if forced:
+                A, B, forced_w = forced.pop()
+            else:
+                A = sides[k % len(sides)] if k <= len(sides) else pick_zone()
+                B = sides[(k * 7) % len(sides)] if len(sides) < k <= 2 * len(sides) else pick_zone()
             if A[1] is None or B[1] is None:
                 continue
             parser = rng.choice(["absolute", "absolute-own", "relative", "timestamp", "custom"])
@@ -86,7 +113,12 @@ def run(ctx):
             has_to = rng.random() < 0.8
             y = rng.randint(2002, 2037) if parser == "timestamp" else rng.randint(1950, 2037)
             w = datetime.datetime(y, rng.randint(1, 12), rng.randint(1, 28), rng.randint(0, 23), rng.randint(0, 59), rng.randint(0, 59))
-            if rng.random() < 0.15:         # next to a DST transition of A, when it has any
+            if forced_w is not None:
+                has_to = True
+                w = forced_w.replace(hour=rng.randint(0, 23), minute=rng.randint(0, 59))
+                if parser == "timestamp" and w.year < 2002:
+                    parser = "absolute"
+            elif rng.random() < 0.15:         # next to a DST transition of A, when it has any
                 tt = getattr(A[1], "_utc_transition_times", None)
                 if tt:
                     cand = [t for t in tt if 1950 < t.year < 2037 and (parser != "timestamp" or t.year > 2002)]
